@@ -76,7 +76,7 @@ std::string body_C01(Ctx& c, CaseIn& in) {
     for (int i = 0; i < 3; i++) pairs.push_back({ws[tp.below(ws.size())], rs[tp.below(rs.size())]});
   }
   std::vector<int64_t> refs;
-  if (any_handle) refs = gen_refs(tp, 64);
+  if (any_handle) { size_t nh = 0; for (auto& it : items) { std::vector<const Value*> hs; collect_handles(*it.t->schema, it.expect, hs); nh += hs.size(); } refs = gen_refs(tp, nh); }
 
   Bytes first_bytes; bool have_first = false; int first_w = -1;
   std::map<int, std::pair<Bytes, std::vector<size_t>>> written;   // per writer kind: bytes, positions
@@ -148,7 +148,7 @@ std::string body_C03(Ctx& c, CaseIn& in) {
   Tape& tp = *in.rest;
   auto o = t.make(); o->assign(in.v);
   Value actual = o->get();   // unordered_map: the container's own iteration order
-  std::vector<int64_t> refs; if (t.has_handle) refs = gen_refs(tp, 64);
+  std::vector<int64_t> refs; if (t.has_handle) { std::vector<const Value*> hs0; collect_handles(*t.schema, actual, hs0); refs = gen_refs(tp, hs0.size()); }
   Written w1 = lib_encode(t, *o, &refs);
   if (w1.status != 0) return fmt("write-failed: %s", err_name(w1.status));
   EncodeOpts eo;
@@ -218,7 +218,7 @@ std::string body_C06(Ctx& c, CaseIn& in) {
   auto o = t.make(); o->assign(in.v);
   Value actual = o->get();
   const size_t G = o->get_size();
-  std::vector<int64_t> refs; if (t.has_handle) refs = gen_refs(tp, 64);
+  std::vector<int64_t> refs; if (t.has_handle) { std::vector<const Value*> hs0; collect_handles(*t.schema, actual, hs0); refs = gen_refs(tp, hs0.size()); }
   Written full = lib_encode(t, *o, &refs);
   if (full.status != 0) return fmt("write-failed: %s", err_name(full.status));
   if (G < full.bytes.size()) return fmt("getsize-under: GetSize=%zu but Write emitted %zu bytes", G, full.bytes.size());
@@ -294,7 +294,7 @@ std::string body_C05(Ctx& c, CaseIn& in) {
   Tape& tp = *in.rest;
   auto o = t.make(); o->assign(in.v);
   Value actual = o->get();
-  std::vector<int64_t> refs; if (t.has_handle) refs = gen_refs(tp, 64);
+  std::vector<int64_t> refs; if (t.has_handle) { std::vector<const Value*> hs0; collect_handles(*t.schema, actual, hs0); refs = gen_refs(tp, hs0.size()); }
   Written w = lib_encode(t, *o, &refs);
   if (w.status != 0) return fmt("write-failed: %s", err_name(w.status));
   bool inner = false;
@@ -338,7 +338,7 @@ std::string body_C10(Ctx& c, CaseIn& in) {
   static const int errs[] = {E_WriteLimitReached, E_StreamError, E_IOError, E_SystemError, E_ProtocolError, E_InvalidHandleReference, E_DebugError};
   auto o = t.make(); o->assign(in.v);
   Value actual = o->get();
-  std::vector<int64_t> refs; if (t.has_handle) refs = gen_refs(tp, 64);
+  std::vector<int64_t> refs; if (t.has_handle) { std::vector<const Value*> hs0; collect_handles(*t.schema, actual, hs0); refs = gen_refs(tp, hs0.size()); }
   bool composite = !t.schema->kids.empty() || !t.schema->entries.empty();
   bool nontrivial = false;
   Bytes clean_bytes; std::vector<PushRec> clean_pushed;
